@@ -59,7 +59,7 @@ def main() -> int:
             out[prop] = [2, [f"ANALYSIS-ERROR property={prop} checker crashed: {err!r}"]]
             continue
         if violations:
-            out[prop] = [1, [v.text()[:300] for v in violations[:3]]]
+            out[prop] = [1, [v.text()[:300] for v in violations[:3]], sorted({v.rule for v in violations})]
         elif errors:
             out[prop] = [2, [f"ANALYSIS-ERROR property={prop} " + "; ".join(errors)[:300]]]
         else:
